@@ -48,7 +48,7 @@ def transfer_contract(ck, ld):
     ncase = 0
     for cmd, sym in (("cp", None), ("mv", None), ("ln", False), ("ln", True)):
         builder = getattr(ld, "_build_%s_parser" % cmd)
-        for chs, listing, pre in itertools.product(([], ["ch"], ["ch/"], ["./ch"], ["a,b"], ["a", " b "]), ([], rels[:1], rels), (False, True)):
+        for chs, listing, pre in itertools.product(([], ["ch"], ["ch/"], ["./ch"], ["a,b"], ["a", " b "], ["ch10,ch1"]), ([], rels[:1], rels), (False, True)):
             parser = builder(argparse.ArgumentParser)
             argv = []
             for c in chs:
